@@ -490,6 +490,32 @@ func (w *vWriteRun) request(req string, l22, l3, of bool) bool {
 			return false
 		}
 		w.lastDir = w.cur.dir
+		if of && vChance(w.c.R, 0.3) {
+			// before the first record of the run: a model of the same size for a channel whose OFF file has been set up. The
+			// request is refused or it takes effect; if it takes effect, it is the model the file has to state in its header
+			for ch := 0; ch < w.nchan; ch++ {
+				if !w.hasProj[ch] {
+					continue
+				}
+				nb, _ := w.projP[ch].Dims()
+				pd := make([]float64, nb*w.nsamp)
+				bd := make([]float64, w.nsamp*nb)
+				for i := range pd {
+					pd[i] = w.c.R.NormFloat64() / float64(w.nsamp)
+				}
+				for i := range bd {
+					bd[i] = w.c.R.NormFloat64()
+				}
+				P, B := mat.NewDense(nb, w.nsamp, pd), mat.NewDense(w.nsamp, nb, bd)
+				if err := w.f.ds.ConfigureProjectorsBases(ch, P, B, "replacement"); err == nil {
+					w.projP[ch], w.projB[ch] = P, B
+					c.Cov("models_replaced_right_after_start", 1)
+				} else {
+					c.Cov("model_requests_refused_right_after_start", 1)
+				}
+				break
+			}
+		}
 		if ents, _ := os.ReadDir(w.cur.dir); len(ents) > 1 { // only the experiment-state file may exist yet
 			c.Violate("c06:directory-not-new", "directory %q already had %d entries right after START", w.cur.dir, len(ents))
 			return false
